@@ -8,7 +8,11 @@ Two parts on ONE harness binary (harness/rt/scn_c14.cpp + harness/rt/rt_io.cpp: 
 io_epoll_context under the controlled scheduler, real pipes/eventfd/epoll in the kernel,
 epoll_wait / epoll_ctl / readv / writev / read / write / close interposed, fault schedule):
   remotequeue  rq_*          vs Lean model Proto/RemoteQueue (parametric theorems, Props/C14)
-  epollop      rd_* / wr_*   vs Lean model Proto/EpollOp   (instance theorems, Props/C14_ops, C14_cancel)
+  epollop      rd_* / wr_*   vs Lean model Proto/EpollOp   (instance theorems, Props/C14_ops, C14_cancel, C14_race)
+
+The EpollOp model follows the code WITH the errno repair (/repo 1b893b7) and WITH the cancellation
+repair of tools/checks/c14_repair.patch (stale epoll registration / stopCallback_ never destructed in
+complete_with_done).  On a tree without the latter the monitors of rd_cancel_* / wr_cancel_parked fire.
 """
 from ..atomic import AtomicPart
 from ..runner import run_check
@@ -51,8 +55,8 @@ def run(tier, seed, replay=None):
                      "io_uring_context, mmap_region and timers of io_epoll_context are not covered (partial level)"],
         trusted_extra=["harness/rt (cooperative scheduler, __tsan_* shim)", "harness/rt/rt_io.cpp (syscall interposition, fault schedule, shadow epoll table)",
                        "Core/Admit.lean trace-inclusion test", "g++ 12 -fsanitize=thread instrumentation", "Linux pipe/eventfd/epoll as found in the sandbox"],
-        explanation="Theorems: Props/C14 remote_* / wakeup_* / run_* (parametric, by inductive invariant: Lemmas/RemoteQueue*), Props/C14_ops *_ok and "
-                    "Props/C14_cancel *_safe (kernel-evaluated closures), *_VIOLATES_* (the model, like the code, breaks C14 in three places; each is "
-                    "reproduced on the real code by a scenario of this check). Tie: trace inclusion of real executions in the models + model-independent "
+        explanation="Theorems: Props/C14 remote_* / wakeup_* / run_* (parametric, by inductive invariant: Lemmas/RemoteQueue*), Props/C14_ops, "
+                    "Props/C14_cancel, Props/C14_race *_ok (kernel-evaluated closures: safe, clean, errTrue in every schedule of each instance) and "
+                    "*_completes / race_* (non-vacuity witnesses). Tie: trace inclusion of real executions in the models + model-independent "
                     "monitors (ran twice / wrong thread / lost item, completed twice, bytes differ, buffer or operation state touched after completion, "
                     "stale epoll registration, run() not returning, double close).")
